@@ -218,6 +218,7 @@ func init() {
 			checkC08Words(c, budget(c.Tier, 1200, 50000))
 			checkC08Late(c, budget(c.Tier, 600, 20000))
 			checkC08ActiveAssigned(c, budget(c.Tier, 100, 3000))
+			checkC08PartialClash(c, budget(c.Tier, 100, 3000))
 			checkC08Namespaced(c, budget(c.Tier, 300, 10000))
 		}}
 	}
